@@ -125,14 +125,22 @@ pub fn run(ctx: &mut Ctx) {
             0 => 300,
             1 => 253,
             2 => 252,
+            3 => 254,
+            // the next compact-size boundary of the transaction count (with minimal transactions)
+            4 if k % 100 == 4 => *gen::pick(&mut ctx.rng, &[65_535usize, 65_536, 65_537]),
             _ => 6,
         };
         let mut b = gen::block(&mut ctx.rng, 6);
         if maxtx > 6 {
-            let proto = gen::tx(&mut ctx.rng, &TxDials { max_in: 1, max_out: 1, ..TxDials::default() });
+            let dials = if maxtx > 1000 {
+                TxDials { max_in: 0, max_out: 0, wit_mask: 0, ..TxDials::default() }
+            } else {
+                TxDials { max_in: 1, max_out: 1, ..TxDials::default() }
+            };
+            let proto = gen::tx(&mut ctx.rng, &dials);
             b.txdata = vec![proto; maxtx];
         }
-        ctx.shape(("block", b.txdata.len().min(254), b.header.is_dynafed()));
+        ctx.shape(("block", if b.txdata.len() > 254 { 255 + b.txdata.len() / 65_536 } else { b.txdata.len() }, b.header.is_dynafed()));
         check_block(ctx, &b, "generated");
         for t in b.txdata.iter().take(3) {
             check_tx(ctx, t, "in-block");
